@@ -235,8 +235,9 @@ def strategies(tier):
 
     @st.composite
     def s_twolevel(draw):
-        p = draw(st.one_of(st.integers(1, 6), st.integers(1, 16)))
-        b = draw(st.integers(0, 6))
+        # periods: small (boundary arithmetic), medium, and large (17..64: long blocks, deep binomial recursion)
+        p = draw(st.integers(0, 9).flatmap(lambda m: st.integers(1, 6) if m < 4 else st.integers(7, 16) if m < 7 else st.integers(17, 64)))
+        b = draw(st.integers(0, 9).flatmap(lambda m: st.integers(0, 3) if m < 6 else st.integers(4, 10)))
         k = draw(st.integers(0, 6))
         mode = draw(st.integers(0, 4))
         if mode == 0:
@@ -249,6 +250,7 @@ def strategies(tier):
             n = draw(st.integers(1, max(1, p - 1)))
         else:
             n = draw(st.integers(1, 6 * p + 3))
+        n = min(n, 400 if tier == "thorough" else 200)
         return {"cls": "TwoLevel", "period": p, "b": b, "storage": draw(storage),
                 "traj": draw(traj), "n": n, "passes": draw(passes)}
 
@@ -399,6 +401,16 @@ def box(tier, classes=None, N=None, multipass=True):
                 for d in range(0, 5):
                     for c8 in BOX_C8:
                         yield {"cls": "HRevolve", "n": n, "s": s, "d": d, "c8": list(c8), "passes": 1}
+
+
+def deep_repeat_probes(tier):
+    """'Arbitrarily many' adjoint calculations: more passes than the default recursion limit
+    (1000) on the three classes that permit unlimited repetition."""
+    k = 1300 if tier == "quick" else 5000
+    yield {"cls": "SingleMemory", "n": 2, "passes": k}
+    yield {"cls": "SingleDisk", "move": False, "n": 2, "passes": k}
+    yield {"cls": "TwoLevel", "period": 2, "b": 1, "storage": "RAM", "traj": "maximum", "n": 3, "passes": k}
+    yield {"cls": "TwoLevel", "period": 3, "b": 0, "storage": "DISK", "traj": "revolve", "n": 4, "passes": k}
 
 
 LARGE_N = (256, 257, 300)
